@@ -37,6 +37,27 @@ SERVICES = {
 }
 
 
+def _st(name, *fields):
+    return ("struct", name, tuple((n, i, t, None, None) for i, (n, t) in enumerate(fields)))
+
+
+# names that meet the generator's own derived names: <Field>Type aliases, Get<Field>/View<Field> accessors, the
+# locals and parameters of the generated functions, the rpc wrapper types built from service and payload names
+NAMING = [
+    ("naming:alias-hides-enum", [("enum", "SpeedType", (("Slow", 0), ("Fast", 1))), _st("Car", ("speed", U(16)), ("kind", ("ref", "SpeedType")), ("wheels", U(8)))], {"Car": {"speed": 513, "kind": 1, "wheels": 4}}),
+    ("naming:alias-hides-struct", [_st("StateType", ("v", U(2))), _st("Mach", ("state", U(8)), ("prev", ("ref", "StateType")), ("z", U(8)))], {"StateType": {"v": 2}, "Mach": {"state": 1, "prev": {"v": 2}, "z": 255}}),
+    ("naming:alias-declared-after-its-use", [("enum", "StateType", (("Idle", 0), ("Run", 1), ("Fault", 2))), ("struct", "Mach", (("prev", 1, ("ref", "StateType"), None, None), ("state", 0, U(8), None, None), ("z", 2, U(8), None, None)))], {"Mach": {"state": 1, "prev": 2, "z": 255}}),
+    ("naming:service-camel-case", [_st("Req", ("id", U(8))), _st("Rep", ("value", U(16))), ("service", "MotorControl", 1, (("Get", 0, "Req", "Rep"),))], {"Req": {"id": 7}, "Rep": {"value": 515}}),
+    ("naming:service-snake-case", [_st("Req", ("id", U(8))), _st("Rep", ("value", U(16))), ("service", "motor_control", 1, (("get_it", 0, "Req", "Rep"),))], {"Req": {"id": 7}, "Rep": {"value": 515}}),
+    ("naming:payload-camel-case", [_st("SensorReq", ("id", U(8))), _st("sensor_rep", ("value", U(16))), ("service", "Sensor", 1, (("Get", 0, "SensorReq", "sensor_rep"),))], {"SensorReq": {"id": 7}, "sensor_rep": {"value": 515}}),
+    ("naming:field-named-buffer", [_st("Frame", ("length", U(8)), ("buffer", ("arr", U(8), 4)))], {"Frame": {"length": 4, "buffer": [1, 2, 3, 4]}}),
+    ("naming:field-named-endianess", [_st("Config", ("endianess", U(1)), ("gain", I(7)))], {"Config": {"endianess": 1, "gain": -3}}),
+    ("naming:field-named-like-its-struct", [_st("Speed", ("Speed", U(16)), ("valid", U(1)))], {"Speed": {"Speed": 513, "valid": 1}}),
+    ("naming:field-named-like-a-local", [_st("Loc", ("j", U(8)), ("fcp_decoded", U(8)), ("rhs", U(8)), ("begin", U(8)), ("end", U(8)), ("data", U(8)))], {"Loc": {"j": 1, "fcp_decoded": 2, "rhs": 3, "begin": 4, "end": 5, "data": 6}}),
+    ("naming:fields-equal-in-pascal-case", [_st("Wheel", ("speed", U(16)), ("Speed", I(16)))], {"Wheel": {"speed": 1000, "Speed": -2}}),
+]
+
+
 def programs(tier):
     out = []
     for (bl, bd), (sl, sd), enums in itertools.product(BINDINGS.items(), SERVICES.items(), (False, True)):
@@ -46,6 +67,7 @@ def programs(tier):
         out.append(("%s|%s|%s" % (bl, sl, "enums" if enums else "noenums"), decls))
     # nested struct declared before use, three levels; same field name at several levels
     out.append(("nested-3", [A, B, ("struct", "D", (("b", 0, ("ref", "B"), None, None), ("a", 1, ("ref", "A"), None, None), ("x", 2, U(1), None, None)))]))
+    out += NAMING
     return out
 
 
@@ -72,7 +94,9 @@ def extra_cpp(decls):
     return "\n".join(L) + "\n"
 
 
-def struct_value(name):
+def struct_value(name, values=None):
+    if values and name in values:
+        return values[name]
     if name == "A":
         return {"x": 200}
     if name == "B":
@@ -88,7 +112,8 @@ def run_one(item):
     from fcp.parser import get_fcp_from_string
     from fcp.error import Logger
 
-    label, decls = item
+    label, decls = item[0], item[1]
+    values = item[2] if len(item) > 2 else None
     S = Stats()
     S.count("states")
     S.count("transitions")
@@ -132,7 +157,7 @@ def run_one(item):
     reqs, index = [], []
     names = [d[1] for d in decls if d[0] == "struct"]
     for n in names:
-        v = struct_value(n)
+        v = struct_value(n, values)
         ref = refcodec.encode(env, n, v)
         reqs.append({"op": "enc", "name": n, "value": v})
         index.append((n, v, ref, "enc"))
@@ -142,8 +167,8 @@ def run_one(item):
     for s in [d for d in decls if d[0] == "service"]:
         for m in s[3]:
             for payload, suffix in ((m[2], "Input"), (m[3], "Output")):
-                v = {"service_id": s[2], "method_id": m[1], "payload": struct_value(payload)}
-                ref = bytes([s[2], m[1]]) + refcodec.encode(env, payload, struct_value(payload))
+                v = {"service_id": s[2], "method_id": m[1], "payload": struct_value(payload, values)}
+                ref = bytes([s[2], m[1]]) + refcodec.encode(env, payload, struct_value(payload, values))
                 reqs.append({"op": "enc", "name": payload + suffix, "value": v})
                 index.append((payload + suffix, v, ref, "enc"))
     answers = cppbuild.run_requests(exe, reqs)
